@@ -83,7 +83,7 @@ Inductive kind :=
 | KOpq (what : string)
 | KSub
 | KSMem (sid : N) (mt : ty)
-| KCall (method intrinsic : bool) (params : list (N * ty)) (ret : ty)    (* direction 0 in, 1 out, 2 inout; a method call carries the object as its first operand *)
+| KCall (method intrinsic : bool) (nd : N) (params : list (N * ty)) (ret : ty)    (* direction 0 in, 1 out, 2 inout; a method call carries the object as its first operand; parameters from index nd on have default values and may be left out from the end *)
 | KCtor (ar : list N)
 | KCast | KSizeOf
 | KOp (name : string).
@@ -152,14 +152,14 @@ Definition both (a b : err) : err := match a with Some _ => a | None => b end.
 
 Definition same (a b : ty) : bool := ty_eqb (strip a) (strip b).
 
-Fixpoint args_ok (params : list (N * ty)) (args : list expr) : err :=
+Fixpoint args_ok (nd : N) (params : list (N * ty)) (args : list expr) : err :=
   match params, args with
-  | [], [] => ok
   | (dir, pt) :: ps, a :: r =>
       both (req (same (e_ty a) pt || match strip pt with TParam _ => true | _ => false end) "argument type differs from the parameter type")
      (both (req ((dir =? 0) || writable a) "out / inout argument is not a writable lvalue")
-           (args_ok ps r))
-  | _, _ => bad "argument count differs from the parameter count"
+           (args_ok (N.pred nd) ps r))
+  | _, [] => req (nd =? 0) "argument count differs from the parameter count"
+  | [], _ :: _ => bad "argument count differs from the parameter count"
   end.
 
 Fixpoint slots_ok (k : sk) (ar : list N) (kids : list expr) : err :=
@@ -303,8 +303,8 @@ Definition check_node (k : kind) (t : ty) (lv : bool) (kids : list expr) : err :
                     (req (ty_eqb t mt && Bool.eqb lv (e_lv x)) "type of a struct member")
       | _ => bad "member operand count"
       end
-  | KCall method _ params ret =>
-      both (if method then match kids with _ :: r => args_ok params r | [] => bad "method call without an object" end else args_ok params kids)
+  | KCall method _ nd params ret =>
+      both (if method then match kids with _ :: r => args_ok nd params r | [] => bad "method call without an object" end else args_ok nd params kids)
            (req (ty_eqb t ret && negb lv) "type of a call")
   | KCtor ar =>
       match num t with
@@ -410,7 +410,7 @@ Definition derive_node (k : kind) (t : ty) (lv : bool) (kids : list (ty * bool))
       | _ => None
       end
   | KSMem _ mt, [(_, lx)] => Some (mt, lx)
-  | KCall _ _ _ ret, _ => Some (ret, false)
+  | KCall _ _ _ _ ret, _ => Some (ret, false)
   | KCtor _, _ => Some (t, false)
   | KCast, [_] => Some (t, false)
   | KSizeOf, [] => Some (TScalar KUInt, false)
